@@ -323,6 +323,48 @@ def explore(grammar, cases: list[dict], max_trees: int = 2, check_complete_trees
                     seen[hk].add(key)
                     if len(trees.setdefault(hk, [])) < max_trees:
                         trees[hk].append(child)
+    # call-order independence: ONE forecaster (as PacketSelector keeps for a whole campaign) asked in orders the
+    # breadth-first walk above never produces - a history, the empty history, an extension of the first; repeats;
+    # jumps between unrelated branches - must answer every call like a brand-new forecaster (seeded change C19-2:
+    # a forecaster that feeds its parser only the new messages after the empty-history branch had reset it)
+    import random as _random
+    orng = _random.Random(len(cases) * 7919 + len(trees) * 31 + sum(len(h) for h in trees))
+    hs = [h for h in trees if trees[h]]
+    if len(hs) >= 3 and out["timeouts"] == 0:
+        ext = {h: [g for g in hs if len(g) > len(h) and g[:len(h)] == h] for h in hs}
+        seqs: list[list[tuple]] = []
+        for _ in range(8):
+            p_ = orng.choice([h for h in hs if h] or hs)
+            seq = [p_, ()]
+            if ext.get(p_):
+                seq.append(orng.choice(ext[p_]))
+            seq += [orng.choice(hs) for _ in range(3)]
+            seqs.append(seq)
+        one = PacketForecaster(grammar)
+        for seq in seqs:
+            for h in seq:
+                if _STEPS["copies"] - copies0 > tree_budget:
+                    break
+                t = trees[h][0]
+                try:
+                    signal.setitimer(signal.ITIMER_REAL, PREDICT_TIMEOUT_S)
+                    _STEPS.update(trees=0, adds=0, max_size=0, armed=False)
+                    try:
+                        o1, c1, _r1 = pr.real_predict(one, t)
+                        o2, c2, _r2 = pr.real_predict(PacketForecaster(grammar), t)
+                    finally:
+                        signal.setitimer(signal.ITIMER_REAL, 0)
+                except Exception:  # noqa: BLE001 - budget / timeout / crash: judged by the walk above, not here
+                    one = PacketForecaster(grammar)
+                    continue
+                out["order_probe_calls"] = out.get("order_probe_calls", 0) + 1
+                if sorted(o1, key=str) != sorted(o2, key=str) or c1 != c2:
+                    out["mismatch"].append({"h": [jm(m) for m in h], "kind": "call-order",
+                                            "sequence": [[jm(m) for m in g] for g in seq],
+                                            "same_forecaster": [jm(m) for m in sorted(o1, key=str)], "complete_same": c1,
+                                            "fresh_forecaster": [jm(m) for m in sorted(o2, key=str)], "complete_fresh": c2})
+                    one = PacketForecaster(grammar)
+                    break
     # verified derivation checker on the complete trees
     if to_validate:
         try:
@@ -783,6 +825,11 @@ def classify(rec: dict, nullable_head: bool = False) -> tuple[Optional[str], Opt
     if rec.get("kind") == "wallclock":
         return ("wallclock", f"predict after {rec['h']} did not return within {PREDICT_TIMEOUT_S}s although the parser "
                 f"stayed inside its step budgets ({rec.get('trees')} trees, {rec.get('adds')} admissions)", False)
+    if rec.get("kind") == "call-order":
+        return ("C19/forecast-depends-on-earlier-calls",
+                f"one PacketForecaster asked {rec['sequence']} in this order answers the history {rec['h']} with "
+                f"{rec['same_forecaster']} (complete={rec['complete_same']}); a brand-new forecaster answers "
+                f"{rec['fresh_forecaster']} (complete={rec['complete_fresh']})", False)
     if rec.get("kind") == "mount":
         return SIG_MOUNT, f"mounting {rec['mount']} after {rec['h']}: {rec.get('error') or rec.get('got')}", False
     if rec.get("kind") in ("complete-tree-invalid", "complete-tree-history"):
@@ -973,6 +1020,7 @@ def main(tier: str) -> int:
         run.count("prefixes", r["n_prefixes"])
         run.count("complete_histories", r["n_complete"])
         run.count("predict_calls", ex["predicts"])
+        run.count("call_order_probe_calls(one forecaster vs a fresh one)", ex.get("order_probe_calls", 0))
         run.count("predict_calls_on_type_ambiguous_histories", ex.get("predicts_type_ambiguous", 0))
         run.count("mounts", ex["mounts"])
         run.count("states_where_the_repetition_limit_excludes_an_option", ex.get("limit_binding", 0))
